@@ -22,5 +22,5 @@ MANIFEST = {
   'level_text': 'Bounded model checking of the verdict plumbing all four EXPRESS tools share: (1) one diagnostic of ANY code from any state sets ERRORoccurred / prints ERROR vs WARNING / exits exactly as its severity and suppression bit say; (2) the real main() returns non-zero exactly when a phase raised an error and never resolves or generates after a failed phase; (3) DICTdefine reports a redeclaration exactly for equal names (enumeration-overload rule as coded). The resolver passes and the grammar are not encoded.',
   'level_note': 'Trusted: CBMC, harness stubs of the three phases and of stdio/exit. Outside the claim: which schemas the parser/resolver reject (undefined references, cycles, missing supertypes), agreement of the four tools beyond sharing main().',
   'technique': 'CBMC bounded model checking of goto-cc-compiled error.c / fedex.c main() / dict.c+hash.c with symbolic error codes, phase outcomes and names',
-  'design_ref': 'DESIGN.md section 3, C04',
+  'design_ref': 'DESIGN.md section 2, C04',
 }
